@@ -344,6 +344,16 @@ func c06Seq(c *fw.Ctx, i int) {
 
 	nops := r.Range(1, 10)
 	for op := 0; op < nops; op++ {
+		if op > 0 && r.Chance(1, 12) {
+			// the extension is switched on (or moved to another id) in mid-stream: what was computed for earlier calls no longer applies
+			absID = r.Range(1, 14)
+			trace = append(trace, fmt.Sprintf("EnableAbsSendTime(%d)", absID))
+			if pv, st := fw.Guard(func() { p.EnableAbsSendTime(absID) }); pv != nil {
+				c.Fail("C06/panic/EnableAbsSendTime/"+fw.PanicFunc(st), fmt.Sprintf("EnableAbsSendTime panicked: %v", pv), wit("stack", st))
+				return
+			}
+			c.Count("abs_send_time_enabled_in_mid_stream", 1)
+		}
 		switch r.Intn(10) {
 		case 0, 1: // SkipSamples
 			n := uint32(r.PickU64(0, 1, 1<<31, 1<<32-1, r.U64()))
